@@ -8,6 +8,27 @@ NOTE_COMMON = ("Trusted: Lean 4.33.0 kernel; axioms ⊆ {propext, Quot.sound, Cl
                "vf/extract.py and the correspondence harness. ")
 
 CHECKS = {
+    "C01": dict(
+        category="proof",
+        text=("Lean theorems C01_precedence / C01_string / C01_spelling_ws / C01_redundant_brackets / C01_unambiguous: every writing of a tree by the "
+              "documented stratified grammar (brackets > juxtaposition > AND > XOR > OR), in any operator spelling, with any whitespace and any redundant "
+              "brackets, is parsed by the model to that tree modulo same-operator flattening -- for all lengths and nestings. The model is tied to Lark by "
+              "the grammar data extracted from the live parser (T2, proved equal to the grammar modelled), the character classes extracted over all code "
+              "points (T1) and a differential run: flat(Lark tree) = flat(model tree) on an exhaustive separator sweep plus generated strings."),
+        design_ref="§5 C01",
+        note=NOTE_COMMON + "Modelled rather than verified: Lark's Earley engine, dynamic lexer and ambiguity resolution (observed through the correspondence).",
+        technique="Lean 4 proof (induction over the written form; stack-machine invariant) + differential correspondence with Lark",
+    ),
+    "C02": dict(
+        category="proof",
+        text=("Lean theorems: acceptance of the condition parser model = the context-free grammar as written (both directions, unbounded); an AHB-shaped "
+              "string is never a condition expression, so a malformed condition part always ends in SyntaxError; the model's outcomes are tree|SyntaxError. "
+              "Tied to the code by T1/T2 and by comparing, for every generated string (valid, mutated, all short strings exhaustively, Unicode), the outcome "
+              "class and accepted structure of all three entry points and of is_valid_expression with the model."),
+        design_ref="§5 C02",
+        note=NOTE_COMMON + "Modelled rather than verified: Lark, Python re; 'no other exception escapes' is observed on the generated strings (exhaustive for short ones), proved only for the model.",
+        technique="Lean 4 proof (recogniser = grammar, simulation of value machine by its skeleton) + outcome-class correspondence",
+    ),
     "C03": dict(
         category="proof",
         text=("All clauses of C03 are Lean theorems (29) stated about the operator tables extracted exhaustively from the running "
